@@ -541,6 +541,10 @@ int main(int argc, char** argv)
                 size_t k;
                 is >> k;
                 std::cout << "TREE " << k << " " << reg(w, w.pool.at(k)) << std::endl;
+            } else if (op == "TYPE") {   // the type of pool[k] with the bound expressions of ranges (common.hpp tsexp)
+                size_t k;
+                is >> k;
+                std::cout << "TYPE " << k << " " << tsexp(w.pool.at(k).get_type()) << std::endl;
             } else if (op == "TEXT") {
                 size_t k;
                 is >> k;
@@ -557,6 +561,25 @@ int main(int argc, char** argv)
                 size_t k, a, b;
                 is >> k >> a >> b;
                 std::cout << canon(w, w.pool.at(k).clone_deeper(w.syms.at(a), w.syms.at(b))) << std::endl;
+            } else if (op == "clone_frame") {   // clone_deeper(frame): every symbol re-resolved by name in the global frame
+                size_t k;
+                is >> k;
+                std::cout << canon(w, w.pool.at(k).clone_deeper(w.doc->get_globals().frame)) << std::endl;
+            } else if (op == "RESOLVE") {   // what frame_t::resolve(name) answers for every known symbol: "s>t" or "s>-"
+                std::cout << "RESOLVE";
+                size_t n = w.syms.size();
+                for (size_t i = 0; i < n; ++i) {
+                    symbol_t uid;
+                    bool ok = w.doc->get_globals().frame.resolve(w.syms[i].get_name(), uid);
+                    std::cout << " " << i << ">";
+                    if (ok && uid != symbol_t()) std::cout << w.sid(uid);
+                    else std::cout << "-";
+                }
+                std::cout << std::endl;
+            } else if (op == "SEXP") {
+                size_t k;
+                is >> k;
+                std::cout << "SEXP " << k << " " << sexp(w.pool.at(k)) << std::endl;
             } else if (op == "subst") {
                 size_t k, s, j;
                 is >> k >> s >> j;
